@@ -13,7 +13,8 @@ each queried name / address, the number of the port the implementation returned 
 modelled: when several ports carry the attribute the model accepts any of them and otherwise answers with its own first).
 Optional "hs":[{"t":"features",…}|{"t":"status",…}…] are the messages of the handshake phase (run through `hsStep`; the
 connection comes up with `hsFinish`), "seen0" asks for a snapshot right after the handshake, "copy":true adds the views of
-`ports.copy()` to every snapshot.  "raws" in the response is the RawStatsReply raised per message ([xid,type,more] or null).
+`ports.copy()` to every snapshot; "seen_up" / "seen_replay":[…] ask for the view at ConnectionUp ("up_snap") and at each
+replayed PortStatus event ("replay_snaps").  "raws" in the response is the RawStatsReply raised per message ([xid,type,more] or null).
 response {"outs":[null | {"type","stats","xids"} | {"raised":…} per message], "snaps":[…per message with "seen"…]} -/
 
 def portOf (j : J) : Except String Port := do
@@ -117,11 +118,25 @@ def handle (j : J) : Except String J := do
   let mut outs : List J := []
   let mut raws : List J := []
   let mut snaps : List J := []
+  let mut extra : List (String × J) := []
   match j.get? "hs" with
   | some hs =>
     let mut hc := HConn.init
     for hj in ← hs.asArr do
       hc := hsStep hc (← hmsgOf hj)
+    -- the view at ConnectionUp / FeaturesReceived, and at each replayed PortStatus event
+    match j.get? "seen_up" with
+    | some su => extra := extra ++ [("up_snap", ← snap (hsUpView hc) q su withCopy)]
+    | none => pure ()
+    match j.get? "seen_replay" with
+    | some sr =>
+      let srs ← sr.asArr
+      let vs := hsReplayViews hc
+      if srs.length ≠ vs.length then
+        extra := extra ++ [("replay_snaps", J.str s!"{vs.length} replayed statuses")]
+      else
+        extra := extra ++ [("replay_snaps", J.arr (← (vs.zip srs).mapM fun (v, se) => snap v q se withCopy))]
+    | none => pure ()
     c := { c with view := hsFinish hc }
   | none => pure ()
   match j.get? "seen0" with
@@ -131,11 +146,11 @@ def handle (j : J) : Except String J := do
     let m ← msgOf mj
     let r := deliver c m
     c := r.1
-    outs := outs ++ [jOut r.2]
-    raws := raws ++ [jRaw (rawOf m)]
+    outs := outs ++ [jOut r.2.out]
+    raws := raws ++ [jRaw r.2.raw]
     match mj.get? "seen" with
     | some s => snaps := snaps ++ [← snap c.view q s withCopy]
     | none => pure ()
-  pure (J.mk [("outs", J.arr outs), ("raws", J.arr raws), ("snaps", J.arr snaps)])
+  pure (J.mk ([("outs", J.arr outs), ("raws", J.arr raws), ("snaps", J.arr snaps)] ++ extra))
 
 def main : IO Unit := serve handle
